@@ -378,7 +378,7 @@ Qed.
 
 Lemma J2_step c g p a b : WF g -> pstep c g p a b -> J2 g a -> J2 g b.
 Proof.
-  intros W St. destruct St as [t Cq I|t D I|t cl ca done x o t' cl' ca' D Q Hin Hnd Hinc I P Hx Cr Nm E
+  intros W St. destruct St as [t Cq I Ev0|t D I Ev0|t cl ca done x o t' cl' ca' D Q Hin Hnd Hinc I P Hx Cr Nm E
                               |t a cl ca done I P|t a ca done I P|t x done Hx I|t done I Cr]; unfold J2.
   - intros [X C]. split; [revert X; apply Ext_frame; reflexivity|].
     revert C. apply PC_mono; unfold cancel_study_gen, U; sp; auto; try discriminate; intros ?; tauto.
